@@ -25,12 +25,18 @@ class C14(PropBase):
             pool.extend(self.forced_variants(v, s))
             if rng.random() < 0.3:
                 pool.append(gen.mutate_string(s, rng, v).replace('?', ''))
+        # typed Sids that carry an un-applied query (same type and fields as the plain Sid, another uri)
+        for a in list(pool[:40]):
+            if ':' not in a and natural(v, a):
+                pool.append(a + rng.choice(['?foo=bar', '?' + natural(v, a)[1][-1][0] + '=zz/zz']))
         pool.append(''); pool.append('bla')
         for _ in range(n):
             a = rng.choice(pool)
             r = rng.random()
             if r < 0.4:
                 b = a
+            elif r < 0.5 and '?' not in a and natural(v, a.split(':')[-1]):
+                b = a + '?foo=bar'
             elif r < 0.7:
                 b = rng.choice(self.forced_variants(v, a.split(':')[-1]))
             else:
@@ -39,6 +45,18 @@ class C14(PropBase):
         for _ in range(n // 10):
             k = rng.randint(2, 8)
             out.append(Case('sorted', [[['s', rng.choice(pool)] for _ in range(k)]], 'sorted', {}))
+        # a value that extends another one by a character sorting below '/': by string 'x/a-b' < 'x/a/y'
+        for _ in range(n // 10):
+            t2 = rng.choice([t for t in v.order if len(v.types[t]) > 2])
+            opens = [i for i, (k_, e) in enumerate(v.types[t2][:-1]) if v.alternatives(e) is None]
+            if not opens:
+                continue
+            i = rng.choice(opens)
+            s2 = v.sid(t2, rng).split('/')
+            s2[i] = rng.choice(['a', 'x', 'dagger'])
+            lst = ['/'.join(s2)] + ['/'.join(s2[:i] + [s2[i] + suf]) for suf in rng.sample(['-b', '.b', '+b', ' b', '-old', '_b', 'b'], 3)]
+            rng.shuffle(lst)
+            out.append(Case('sorted', [[['s', x] for x in lst]], 'sorted', {}))
         # histories: observe, mutate returned containers, re-observe, derive other sids, re-observe
         for _ in range(n // 2):
             a = rng.choice(pool)
@@ -48,6 +66,10 @@ class C14(PropBase):
                 r = rng.random()
                 if r < 0.3:
                     out.append(Case('parent', [['s', a]], 'frame-op', {}))
+                elif r < 0.45 and natural(v, a.split(':')[-1].split('?')[0]):
+                    # removal only: get_with(key=None ...) on the last key(s) of the Sid itself
+                    ks = [k_ for k_, _ in natural(v, a.split(':')[-1].split('?')[0])[1]]
+                    out.append(Case('get_with_kw', [['s', a], [[k_, []] for k_ in ks[-rng.randint(1, min(2, len(ks))):]]], 'frame-op', {}))
                 elif r < 0.6:
                     out.append(Case('get_with_kw', [['s', a], [[rng.choice(v.all_keys()), [rng.choice(gen.OPEN_VALUES)]]]], 'frame-op', {}))
                 elif r < 0.8:
@@ -68,7 +90,9 @@ class C14(PropBase):
         if case.op == 'eq_hash':
             if impl[0] != 'ok':
                 return None if impl[0] == 'raise-src' else 'eq/hash raised %r' % (impl,)
-            eq, heq, set1, eqstr, dict1 = impl[1]
+            eq, heq, set1, eqstr, dict1, ux, uy = impl[1]
+            if (eq == '1') != (ux == uy):
+                return 'Sid == Sid is %s for uris %r and %r' % (eq, ux, uy)
             if eq == '1' and heq != '1':
                 return 'equal Sids hash differently'
             if (set1 == '1') != (eq == '1') or (dict1 == '1') != (eq == '1'):
@@ -108,7 +132,7 @@ class C14(PropBase):
         return [case.op, case.args] if case.op in ('eq_hash', 'fields_mutate') else None
     def histogram_key(self, case, impl):
         if case.op == 'eq_hash' and impl[0] == 'ok':
-            return 'eq_hash:' + ''.join(impl[1])
+            return 'eq_hash:' + ''.join(impl[1][:5])
         return case.stream + ':' + case.op
 
 PROP = C14()
